@@ -25,8 +25,8 @@ RULE = ("layouts built inside a fresh per-case sandbox: inputs {directory tree o
         "(file input containing a workspace, absent directory that must hold an input or be a symlink target; the "
         "flag-less mode is paired with the first sub-command only) are not in the product. Each case = one CLI subprocess (cwd, HOME, TMPDIR in the sandbox) with snapshots "
         "(path, type, size, sha256, mode, link target) of the whole sandbox before and after. Quick: greedy all-pairs "
-        "covering array over the 7 dimensions (order varies with the seed) + hashed extra cases; thorough: the full "
-        "product. Non-trivial = anything but {disjoint, not pre-existing, absolute custom path or no option}, and "
+        "covering array over the 6 dimensions (order varies with the seed) + 48 further -f / -f -q cases in hashed order; "
+        "thorough: the full product in hashed order (stopped, and then not reported exhaustive, if a 15 min budget is exceeded). Non-trivial = anything but {disjoint, not pre-existing, absolute custom path or no option}, and "
         "not an unforced non-incremental run on an absent workspace (lian refuses those before doing anything); "
         "cases are distinct by construction.")
 
@@ -94,10 +94,11 @@ def covering_array(cases, seed, extra):
         chosen.append(order[best])
         uncovered -= pair_sets[best]
     n_array = len(chosen)
+    # extra cases: forced, non-incremental runs only (the ones that get past the preparation step into the analysis)
     for idx, c in enumerate(order):
         if len(chosen) >= n_array + extra:
             break
-        if idx not in taken:
+        if idx not in taken and c["mode"] in ("f", "fq"):
             chosen.append(c)
     return chosen, n_array, total_pairs
 
@@ -162,7 +163,7 @@ def record(col, case, ds, stats):
         col.label("outcome:traceback")
     elif code == 0:
         col.label("outcome:completed")
-    elif "[ERROR]" in stats["tail"] or "[ERROR]" in stats.get("tail", ""):
+    elif "[ERROR]" in stats["tail"]:
         col.label("outcome:deliberate-error-exit")
     else:
         col.label("outcome:exit-%s" % code)
@@ -215,30 +216,45 @@ def replay(path):
 
 
 def main(tier, seed, t0):
+    import time
     col = Collector()
     mpl = _mpl_dir()
+    budget = float(os.environ.get("VERIF_C18_BUDGET_S", "900"))     # thorough must end within 20 min
     try:
         cases = all_cases()
         replays = [common.load_replay(p)["case"] for p in common.replay_files(ID)]
         if tier == "quick":
             chosen, n_array, total_pairs = covering_array(cases, seed, extra=48)
-            exhaustive = False
             cov = {"product_size": len(cases), "covering_array_cases": n_array, "value_pairs_covered": total_pairs,
                    "extra_hashed_cases": len(chosen) - n_array}
         else:
-            chosen = cases
-            exhaustive = True
-            cov = {"product_size": len(cases),
-                   "explanation": "exhaustive over the stated finite product of layout dimensions only"}
-        # warm the shared matplotlib cache once so that parallel cases do not all build it
-        todo = [("replay", c) for c in replays] + [("enum", c) for c in chosen]
-        per = 1 if len(todo) <= 4 * common.NCPU else 2
-        args = [(mpl, [c for _, c in todo[i:i + per]]) for i in range(0, len(todo), per)]
-        col.merge(common.run_shards(shard, args))
+            # hashed order: if the time budget stops the run early, what was run is an even sample
+            chosen = sorted(cases, key=lambda c: common.jhash([seed, fs.case_key(c)]))
+            cov = {"product_size": len(cases)}
+        todo = replays + chosen
+        per = 1 if len(todo) <= 8 * common.NCPU else 2
+        args = [(mpl, todo[i:i + per]) for i in range(0, len(todo), per)]
+        batch = max(1, common.NCPU) * 8
+        done = 0
+        for i in range(0, len(args), batch):
+            if time.time() - t0 > budget:
+                break
+            part = args[i:i + batch]
+            col.merge(common.run_shards(shard, part))
+            done += sum(len(a[1]) for a in part)
         col.labels["replayed"] += len(replays)
+        skipped = len(todo) - done
+        if skipped:
+            col.discards["not-run:time-budget"] += skipped
+        exhaustive = tier != "quick" and skipped == 0
+        if tier != "quick":
+            cov["explanation"] = ("exhaustive over the stated finite product of layout dimensions only" if exhaustive else
+                                  "time budget of %d s reached: %d of %d configurations run (hashed order)" % (budget, done, len(todo)))
+        col.extra["lian_subprocesses"] += done
     finally:
         fs.remove_tree(mpl)
     left = [n for n in os.listdir(tempfile.gettempdir()) if n.startswith(fs.PREFIX)]
-    if left and not os.environ.get("VERIF_C18_SHARED_TMP"):
-        col.notes.append("sandboxes present after the run (another C18 run in progress?): %d" % len(left))
+    if left:
+        col.notes.append("%d %s* directories present in the temp dir after the run (another C18 run in progress?)"
+                         % (len(left), fs.PREFIX))
     return common.finish(ID, tier, seed, col, t0, RULE, ASSUMPTIONS, exhaustive=exhaustive, extra_coverage=cov)
